@@ -110,6 +110,23 @@ CHECKS = {
         "seed-selected ninth in quick. One known finding (unpadded server Initial when budget-limited).",
         "DESIGN.md §4 C13",
     ),
+    "C14": (
+        "model_checking",
+        "explicit-state BFS with state merging over all chunk boundaries of real H3Connection receivers (history replay), plus exhaustive order-preserving interleaving enumeration",
+        "Stream byte strings are produced by a real sending H3Connection (44 request/response/push/"
+        "WebTransport/blocked-on-encoder/GREASE shapes, plus invalid streams cut by FIN). For every stream a BFS "
+        "explores every chunk size at every position with FIN attached or alone, merging states on all "
+        "H3Stream fields + connection fields + normal form so far, so ALL splittings are covered in O(n^2) "
+        "transitions; the encoder stream and a dynamic-table message are explored jointly (all splittings x "
+        "all interleavings); 2-3 streams cut into <=3 chunks are merged in every order-preserving way. "
+        "Oracle: every path reaches the normal form (header blocks, body bytes, trailers, push promises, "
+        "WebTransport bytes, end-of-stream per stream, close code) of the one-delivery run, which equals what "
+        "was submitted to the sending API.",
+        "Streams up to ~100 bytes; pylsqpack decoder state assumed to be a function of the bytes fed (the "
+        "unmerged interleaving enumeration does not rely on it); empty non-FIN deliveries and random long "
+        "streams not covered. One known finding (1xx interim responses).",
+        "DESIGN.md §4 C14",
+    ),
     "C17": (
         "exploration",
         "exhaustive enumeration of finite value/byte-string grammars against an independent codec (refcodec)",
